@@ -49,8 +49,9 @@ def main() -> int:
     problems: list[str] = []
     if not info.get("translate_ok", True):
         problems.append("translator: " + info.get("translate_log", "")[-400:])
-    if info.get("failed_files"):
-        problems.append("coq files not built: " + ", ".join(info["failed_files"]))
+    model_failed = [f for f in info.get("failed_files", []) if f.startswith(("Model/", "Gen/", "Extract/"))]
+    if model_failed:
+        problems.append("model files not built: " + ", ".join(model_failed))
     if not info.get("driver_ok", True):
         problems.append("model driver not built: " + info.get("driver_log", "")[-400:])
     if info.get("audit"):
